@@ -2,6 +2,5 @@ package c09
 
 import "seehuhn.de/go/sfnt/verifharness/vlib"
 
-func gen4(run *vlib.Run, r *vlib.Rand, tier string)     {}
 func genSmall(run *vlib.Run, r *vlib.Rand, tier string) {}
 func genTable(run *vlib.Run, r *vlib.Rand, tier string) {}
